@@ -243,7 +243,7 @@ def c07_sessions(V, tier, family="main"):
         if case["kind"] != "query":
             continue
         hist = case["hist"]
-        if any(e["t"] not in ("edit", "avail", "goto", "close") for e in hist) or not any(e["t"] in ("close", "avail", "goto") for e in hist[:-1]):
+        if any(e["t"] not in ("edit", "avail", "goto", "close", "open") for e in hist) or not any(e["t"] in ("close", "avail", "goto", "open") for e in hist[:-1]):
             continue
         if any(e["t"] == "avail" and e["f"] not in test_files for e in hist):
             continue
@@ -254,9 +254,15 @@ def c07_sessions(V, tier, family="main"):
     rnd.shuffle(cases)
     if family == "chain":
         # histories in which an UNMODIFIED document is closed between an edit and the final query come first
-        pri = [c for c in cases if any(e["t"] == "close" for e in c["hist"][:-1]) and any(e["t"] == "edit" for e in c["hist"])]
-        rest = [c for c in cases if c not in pri]
-        cases = pri[:150 if tier == "quick" else 1000] + rest[:30 if tier == "quick" else 200]
+        # (closed: a conftest / module, not the edited file; the final query is a go-to-definition): ALL of those run
+        def is_pri(c):
+            h = c["hist"]
+            closed = {e["f"] for e in h[:-1] if e["t"] == "close"}
+            edited = {e["f"] for e in h if e["t"] == "edit"}
+            return bool(closed) and bool(edited) and not (closed & edited) and not (closed & set(test_files)) and h[-1]["t"] == "goto"
+        pri = [c for c in cases if is_pri(c)]
+        rest = [c for c in cases if not is_pri(c)]
+        cases = pri[:400 if tier == "quick" else 4000] + rest[:40 if tier == "quick" else 400]
     else:
         cases = cases[:90 if tier == "quick" else 1200]
     base = os.path.join(C.BUILD, "ws", "lsphist7%s-%d" % (family, os.getpid()))
@@ -286,6 +292,19 @@ def c07_sessions(V, tier, family="main"):
                 fin = i == len(hist) - 1
                 t, f = ev["t"], ev["f"]
                 p = uni.paths[f]
+                if t == "close":
+                    # a document must be open to be closed: the (implicit) didOpen of the unmodified document is a state-changing
+                    # event both twins perform (what it may do to order-dependent answers is judged at library level through the
+                    # model's "open" event); only the didClose itself is what the cold twin never sees
+                    if f not in opened:
+                        srv.did_open(p, cur[f].text)
+                    if not cold:
+                        srv.did_close(p)
+                    else:
+                        opened.add(f)
+                        ver.setdefault(f, 1)
+                    if not cold:
+                        opened.discard(f)
                 if cold and not fin and t != "edit":
                     continue
                 if t == "edit":
@@ -297,12 +316,13 @@ def c07_sessions(V, tier, family="main"):
                         opened.add(f)
                         ver[f] = 1
                         srv.did_open(p, cur[f].text)
-                elif t == "close":
+                elif t == "open":
+                    # didOpen of an unmodified document (History.tla models it as the re-analysis it is; warm twin only)
                     if f not in opened:
-                        # "opening and then closing an unmodified document"
+                        opened.add(f)
+                        ver[f] = 1
                         srv.did_open(p, cur[f].text)
-                    srv.did_close(p)
-                    opened.discard(f)
+                elif t == "close":
                     ans = None
                 elif t in ("avail", "goto"):
                     r = cur[f]
